@@ -67,6 +67,13 @@ CLAIMS = {
          "pairs. Termination is the structural Fixpoint. Tied to the code by all pairs of a ~110-value boundary set under the five operators on Value "
          "directly, and by generated programs of depth <= 8 against contexts with extreme values (debug and release in the thorough tier); any "
          "implementation panic is reported as a failing input. Panics inside untranscribed library code are reachable only by that run."),
+ "C20": ("Theorems: for every function whose first parameter is This<T> and whose other parameters are positional - which includes every "
+         "receiver-style built-in of the default context (checked) - and every value-denoting receiver, x.f(args) and f(x, args) evaluate to the same "
+         "outcome and log, for all argument expressions; a host function with positional parameters is invoked iff enough arguments are present and "
+         "each has its parameter's type, then with exactly the first |params| argument values in order, otherwise the result is an argument-count or "
+         "type error, never a crash, and no invocation is logged; a host function registered under a built-in's name replaces it. Tied to magic.rs / "
+         "resolvers.rs / functions.rs by all built-ins x all boundary values in both styles (equivalence also evaluated on the implementation) and by "
+         "41 pre-written host closures covering every extractor kind, called with 0..arity+2 arguments of matching and mismatching kinds."),
  "C06": ("Theorems that Eval.eval (a structural Fixpoint transcribing Value::resolve) returns the left operand's outcome "
          "and host-call log alone when && / || are decided by it, evaluates exactly one branch of ?:, and propagates a "
          "left error - for every context and operand expression, hence at every depth and inside macro bodies. Tied to the "
